@@ -77,7 +77,7 @@ def search(ctx, deep):
     n_theta = 5 * (5 if deep else 1)
     checked = found = 0
     for fam in B.FAMS:
-        for th in B.theta_grid(fam) + [B.theta_random(fam, rng) for _ in range(n_theta)]:
+        for th in B.theta_all(fam) + [B.theta_random(fam, rng) for _ in range(n_theta)]:
             c = B.make(fam, th)
             n = rng.choice([1, 3, 10, 40] if not deep else [1, 3, 10, 200])
             corner = [(1e-4, 1e-4), (1e-4, 1 - 1e-4), (1 - 1e-4, 1e-4), (1 - 1e-4, 1 - 1e-4)]
